@@ -366,6 +366,9 @@ def binop(it, op, a: V, b: V):
                 return VInt(ca & cb)
             if ca is not None:
                 a, b, ca, cb = b, a, cb, ca
+            if cb is not None and cb < 0 and (-cb) & (-cb - 1) == 0:
+                # a & ~(2**k - 1) (the mask is -(2**k)): a rounded DOWN to a multiple of 2**k (floor semantics, any sign of a)
+                return VInt(a.e - a.e % (-cb))
             if cb is not None and cb >= 0:
                 if cb == 0:
                     return VInt(0)
@@ -661,6 +664,9 @@ def dict_find(it, d: VDict, q: V):
 def contains(it, container: V, item: V):
     if isinstance(container, VLib) and container.kind == "dict_keys":
         container = container.f["dict"]
+    if isinstance(container, VLib) and container.kind in ("RelMap", "KeySet", "RelMapKeys"):
+        from . import relmap
+        return relmap.contains(it, container, item)
     if isinstance(container, VDict):
         dk = dict_key(item)
         if dk is None and not isinstance(item, VNone):
@@ -1361,7 +1367,10 @@ def iterate_symbolic(it, v, unpack):
 
 
 def symbolic_comprehension(it, n, env):
-    from . import elementwise
+    from . import elementwise, relmap
+    r = relmap.try_comprehension(it, n, env)
+    if r is not None:
+        return r
     return elementwise.try_comprehension(it, n, env)
 
 
